@@ -1,6 +1,354 @@
-/- C20 — model not written yet (stub so that the driver target exists). -/
-namespace Nitime.C20
+/-
+C20 — model of the correlation / normalisation / information-measure utilities (core Lean only).
 
-def handle (_args : List String) : String := "bad-op"
+Follows the source:
+* `utils.crosscov`  → `crosscovCore` / `crosscov1` (one lane) / `crosscovND` (any axis):
+    `remove_bias` when `debias`; `fftconvolve(x, conj(y[::-1]), mode='full')` is modelled by its
+    documented semantics, the full linear convolution `convFull` written as direct sums (the FFT
+    is NOT modelled: FFT-vs-direct equality is checked by correspondence on every run);
+    `/= N` when `normalize`; `all_lags` or the slice `[N-1, 2N-1)`.
+* `utils.crosscorr / autocov / autocorr` → the same wrappers (flags forced as in the code).
+* `algorithms.correlation.seed_corrcoef` → `seedCorrcoef`.
+* `utils.zscore`, `utils.percent_change` → `zscore1`, `percentChange1` (+ `…ND` along an axis).
+* `analysis.correlation.CorrelationAnalyzer.xcorr / xcorr_norm` → `xcorrFill` with the pair fill
+    in two variants: `.current` (entry (j,i) is a COPY of (i,j); zero lag taken at index N) and
+    `.intended` (entry (j,i) is the lag-REVERSED sequence; zero lag at index N-1); the two
+    choices are independent parameters of `xcorrNormFill` (the driver prints every combination and
+    the correspondence accepts any of them, so that repairing one recorded defect is not an alarm).
+    `np.correlate(a, v, 'full')` = `convFull a (conj (reverse v))` (numpy's documented semantics).
+* `algorithms.entropy.*` → `entropyG` on exact joint counts (`List.count` on the zipped samples,
+    cells = product of the per-variable symbol sets), `-p·log2 p` applied by the instance.
+* `algorithms.cohere.correlation_spectrum` → `correlationSpectrum` (naive DFT, real input).
+-/
+import Nitime.Model.EvBase
+import Nitime.Model.Proto
+
+namespace Nitime.C20
+open Nitime Nitime.Ev Nitime.Ev.Scalar
+
+section corr
+variable {K : Type} [Scalar K]
+
+/-- full linear convolution: `c[m] = Σ_j a[j]·b[m-j]`, length `|a|+|b|-1` -/
+def convFull (a b : List K) : List K :=
+  tabulate (a.length + b.length - 1) fun m =>
+    sumRange a.length fun j =>
+      if j ≤ m ∧ m - j < b.length then mul (nth a j) (nth b (m - j)) else zero
+
+/-- `crosscov` on one lane, after the equal-length check -/
+def crosscovCore (x y : List K) (allLags debias normalize : Bool) : List K :=
+  let x' := if debias then removeBias x else x
+  let y' := if debias then removeBias y else y
+  let c := convFull x' (y'.reverse.map conj)
+  let N := x.length
+  let c := if normalize then c.map (fun v => div v (ofNat N)) else c
+  if allLags then c else (c.drop (N - 1)).take N
+
+/-- `crosscov(x, y, all_lags, debias, normalize)` on 1-d arrays -/
+def crosscov1 (x y : List K) (allLags debias normalize : Bool) : Except Unit (List K) :=
+  if x.length ≠ y.length then .error () else .ok (crosscovCore x y allLags debias normalize)
+
+/-- `crosscorr`: `debias` forced to False -/
+def crosscorr1 (x y : List K) (allLags normalize : Bool) : Except Unit (List K) :=
+  crosscov1 x y allLags false normalize
+
+/-- `autocov`: the mean is removed once (when asked), then `crosscov(x, x, debias=False)` -/
+def autocov1 (x : List K) (allLags debias normalize : Bool) : List K :=
+  let x' := if debias then removeBias x else x
+  crosscovCore x' x' allLags false normalize
+
+/-- `autocorr`: `autocov` with `debias=False` -/
+def autocorr1 (x : List K) (allLags normalize : Bool) : List K := autocov1 x allLags false normalize
+
+/-- lane-wise application along an axis of two equal-shape arrays -/
+def crosscovND (x y : ND K) (axis : Int) (allLags debias normalize : Bool) : Except Unit (ND K) :=
+  match normAxis x.shape.length axis with
+  | none => .error ()
+  | some ax =>
+    if x.shape.getD ax 0 ≠ y.shape.getD ax 0 then .error () else
+    let ls := List.zipWith (fun a b => crosscovCore a b allLags debias normalize) (lanesOf x ax) (lanesOf y ax)
+    .ok (fromLanes x.shape ax ls)
+
+def autocovND (x : ND K) (axis : Int) (allLags debias normalize : Bool) : Except Unit (ND K) :=
+  match normAxis x.shape.length axis with
+  | none => .error ()
+  | some ax => .ok (fromLanes x.shape ax ((lanesOf x ax).map fun a => autocov1 a allLags debias normalize))
+
+/-- `percent_change` on one lane: `(x / mean - 1)·100` -/
+def percentChange1 (x : List K) : List K :=
+  let m := mean x
+  x.map fun v => mul (sub (div v m) (ofNat 1)) (ofNat 100)
+
+def mapLanesND (f : List K → List K) (x : ND K) (axis : Int) : Except Unit (ND K) :=
+  match normAxis x.shape.length axis with
+  | none => .error ()
+  | some ax => .ok (fromLanes x.shape ax ((lanesOf x ax).map f))
+
+/-- `Σ x_i·y_i` -/
+def dot (x y : List K) : K := sumRange x.length fun i => mul (nth x i) (nth y i)
+
+inductive Variant where | current | intended
+  deriving DecidableEq, Repr
+
+/-- `np.correlate(a, v, 'full')` -/
+def correlateFull (a v : List K) : List K := convFull a (v.reverse.map conj)
+
+/-- the `xcorr` pair fill: upper triangle computed, lower triangle filled from it -/
+def xcorrFill (var : Variant) (data : List (List K)) : List (List (List K)) :=
+  let nch := data.length
+  (List.range nch).map fun i => (List.range nch).map fun j =>
+    if i ≤ j then correlateFull (data.getD i []) (data.getD j [])
+    else
+      let u := correlateFull (data.getD j []) (data.getD i [])
+      match var with
+      | .current => u
+      | .intended => u.reverse.map conj
+
+end corr
+
+section real
+variable {K : Type} [RScalar K]
+
+/-- population variance `mean(|x - mean|²)` (real data) -/
+def variance (x : List K) : K :=
+  let d := removeBias x
+  mean (d.map fun v => mul v v)
+
+/-- `zscore` on one lane: `(x - mean) / std` -/
+def zscore1 (x : List K) : List K :=
+  let s := RScalar.sqrt (variance x)
+  (removeBias x).map fun v => div v s
+
+/-- `seed_corrcoef(seed, target_row)` -/
+def seedCorrcoef1 (seed target : List K) : K :=
+  let x := removeBias target
+  let y := removeBias seed
+  div (dot x y) (RScalar.sqrt (mul (dot x x) (dot y y)))
+
+def seedCorrcoef (seed : List K) (targets : List (List K)) : List K :=
+  targets.map (seedCorrcoef1 seed)
+
+/-- `np.corrcoef` entry (Pearson coefficient of two rows) — documented numpy semantics -/
+def corrcoef1 (a b : List K) : K := seedCorrcoef1 a b
+
+/-- `xcorr_norm`: each computed sequence is divided by its entry at `zeroIdx` and multiplied by
+the correlation coefficient; then the pair fill -/
+def xcorrNormFill (var zvar : Variant) (data : List (List K)) : List (List (List K)) :=
+  let nch := data.length
+  let N := (data.headD []).length
+  let z := match zvar with | .current => N | .intended => N - 1
+  let up (i j : Nat) : List K :=
+    let c := correlateFull (data.getD i []) (data.getD j [])
+    let r := corrcoef1 (data.getD i []) (data.getD j [])
+    c.map fun v => mul (div v (nth c z)) r
+  (List.range nch).map fun i => (List.range nch).map fun j =>
+    if i ≤ j then up i j
+    else match var with
+      | .current => up j i
+      | .intended => (up j i).reverse.map conj
+
+/-! ### entropies on exact joint counts -/
+
+/-- the distinct symbols of a sequence (`set(x)`) -/
+def uniq {σ : Type} [DecidableEq σ] : List σ → List σ
+  | [] => []
+  | a :: l => if a ∈ uniq l then uniq l else a :: uniq l
+
+/-- `itertools.product(A, B)` -/
+def pairs {σ τ : Type} (A : List σ) (B : List τ) : List (σ × τ) :=
+  A.flatMap fun a => B.map fun b => (a, b)
+
+/-- `-p·log2 p` for `p = c/n`, and 0 for an empty cell (`if p > 0 else 0`) -/
+def plogp (c n : Nat) : K :=
+  if c = 0 then zero else
+  let p : K := div (ofNat c) (ofNat n)
+  mul (sub zero p) (RScalar.log2 p)
+
+/-- exact joint histogram: number of samples in every cell -/
+def jointCounts {σ : Type} [DecidableEq σ] (cells samples : List σ) : List Nat :=
+  cells.map fun c => samples.count c
+
+def entropyOfCounts (n : Nat) (counts : List Nat) : K :=
+  sumList (counts.map fun c => plogp c n)
+
+/-- entropy of the empirical distribution of `samples` over `cells` -/
+def entropyG {σ : Type} [DecidableEq σ] (cells samples : List σ) : K :=
+  entropyOfCounts samples.length (jointCounts cells samples)
+
+variable {σ : Type} [DecidableEq σ]
+
+/-- `entropy(x)` -/
+def entropy1 (x : List σ) : K := entropyG (uniq x) x
+/-- `entropy(x, y)` -/
+def entropy2 (x y : List σ) : K := entropyG (pairs (uniq x) (uniq y)) (x.zip y)
+/-- `entropy(x, y, z)` -/
+def entropy3 (x y z : List σ) : K :=
+  entropyG (pairs (uniq x) (pairs (uniq y) (uniq z))) (x.zip (y.zip z))
+
+/-- `conditional_entropy(x, y) = H(y, x) − H(y)` -/
+def conditionalEntropy (x y : List σ) : K := sub (entropy2 y x : K) (entropy1 y)
+
+/-- `mutual_information(x, y) = H(x) + H(y) − H(x, y)` -/
+def mutualInformation (x y : List σ) : K :=
+  sub (add (entropy1 x : K) (entropy1 y)) (entropy2 x y)
+
+/-- `entropy_cc(x, y) = sqrt(MI(y, x) / (0.5·(H(x) + H(y))))` -/
+def entropyCC (x y : List σ) : K :=
+  RScalar.sqrt (div (mutualInformation y x : K)
+    (mul (div (ofNat 1) (ofNat 2)) (add (entropy1 x : K) (entropy1 y))))
+
+/-- `np.roll(x, -lag)` -/
+def rollLeft (x : List σ) (lag : Nat) : List σ :=
+  if x.length = 0 then x else x.rotateLeft (lag % x.length)
+
+/-- `transfer_entropy(x, y, lag)` -/
+def transferEntropy (x y : List σ) (lag : Nat) : K :=
+  let fi := rollLeft x lag
+  let a : K := conditionalEntropy fi x
+  let b : K := sub (entropy3 fi y x : K) (entropy2 x y)
+  sub a b
+
+/-- naive DFT of a real sequence: (re, im) of `Σ_t x_t e^{-2πi kt/n}` — given cos/sin tables -/
+def correlationSpectrum (cosT sinT : Nat → K) (x1 x2 : List K) (norm : Bool) : List K :=
+  let n := x1.length
+  let a := removeBias x1
+  let b := removeBias x2
+  let re (x : List K) (k : Nat) : K := sumRange n fun t => mul (nth x t) (cosT ((k * t) % n))
+  let im (x : List K) (k : Nat) : K := sumRange n fun t => sub zero (mul (nth x t) (sinT ((k * t) % n)))
+  let d := RScalar.sqrt (mul (dot a a) (dot b b))
+  let ccn := tabulate n fun k =>
+    div (add (mul (re a k) (re b k)) (mul (im a k) (im b k))) (mul d (ofNat n))
+  let ccn := if norm then
+      let s := sumRange n (nth ccn)
+      ccn.map fun v => mul (div v s) (ofNat 2)
+    else ccn
+  ccn.take (n / 2 + 1)
+
+end real
+
+/-! ### line protocol -/
+open Proto
+
+def parseCList? (s : String) : Option (List CF) := do
+  let fs ← parseFloatList? s
+  let rec go : List Float → Option (List CF)
+    | [] => some []
+    | [_] => none
+    | a :: b :: r => (go r).map (⟨a, b⟩ :: ·)
+  go fs
+
+def showCList (xs : List CF) : String := showFloatList (xs.flatMap fun z => [z.re, z.im])
+
+def b? (s : String) : Bool := s = "1"
+
+def showND (show_ : List α → String) (r : Except Unit (ND α)) : String :=
+  match r with
+  | .ok a => s!"ok {showNatList a.shape} {show_ a.data}"
+  | .error _ => "err ValueError"
+
+/-- split a flat list into rows of length `n` -/
+def rows {α} (n : Nat) (l : List α) : List (List α) :=
+  if n = 0 then [] else (List.range (l.length / n)).map fun r => (l.drop (r * n)).take n
+
+def showCube (x : List (List (List Float))) : String :=
+  showFloatList (x.flatMap fun r => r.flatMap id)
+
+def pi : Float := 3.141592653589793
+
+/-- `fn kind axis allLags debias normalize shape xdata [ydata]` with fn ∈ crosscov, crosscorr,
+autocov, autocorr and kind ∈ r (real), c (complex, interleaved) -/
+def handleCov (fn kind : String) (axis : Int) (al db nm : Bool) (shape : List Nat) (xs : String)
+    (ys : Option String) : String :=
+  let run {K} [Scalar K] (parse : String → Option (List K)) (show_ : List K → String) : String :=
+    match parse xs with
+    | none => "bad-op"
+    | some xd =>
+      let x : ND K := ⟨shape, xd⟩
+      match fn, ys with
+      | "autocov", none => showND show_ (autocovND x axis al db nm)
+      | "autocorr", none => showND show_ (autocovND x axis al false nm)
+      | "crosscov", some ys => match parse ys with
+        | some yd => showND show_ (crosscovND x ⟨shape, yd⟩ axis al db nm)
+        | none => "bad-op"
+      | "crosscorr", some ys => match parse ys with
+        | some yd => showND show_ (crosscovND x ⟨shape, yd⟩ axis al false nm)
+        | none => "bad-op"
+      | _, _ => "bad-op"
+  match kind with
+  | "r" => run parseFloatList? showFloatList
+  | "c" => run parseCList? showCList
+  | _ => "bad-op"
+
+def handle (args : List String) : String :=
+  match args with
+  | [fn, kind, axis, al, db, nm, shape, xs] =>
+    match axis.toInt?, parseNatList? shape with
+    | some ax, some sh => handleCov fn kind ax (b? al) (b? db) (b? nm) sh xs none
+    | _, _ => "bad-op"
+  -- crosscov with per-array shapes (length mismatch along the axis → ValueError)
+  | [fn, kind, axis, al, db, nm, shape, xs, ys] =>
+    match axis.toInt?, parseNatList? shape with
+    | some ax, some sh => handleCov fn kind ax (b? al) (b? db) (b? nm) sh xs (some ys)
+    | _, _ => "bad-op"
+  | ["crosscovlen", xs, ys] =>
+    match parseFloatList? xs, parseFloatList? ys with
+    | some x, some y => match crosscov1 x y false true true with
+      | .ok r => "ok " ++ showFloatList r
+      | .error _ => "err ValueError"
+    | _, _ => "bad-op"
+  | ["zscore", axis, shape, xs] =>
+    match axis.toInt?, parseNatList? shape, parseFloatList? xs with
+    | some ax, some sh, some x => showND showFloatList (mapLanesND zscore1 ⟨sh, x⟩ ax)
+    | _, _, _ => "bad-op"
+  | ["pchange", axis, shape, xs] =>
+    match axis.toInt?, parseNatList? shape, parseFloatList? xs with
+    | some ax, some sh, some x => showND showFloatList (mapLanesND percentChange1 ⟨sh, x⟩ ax)
+    | _, _, _ => "bad-op"
+  | ["seedcc", n, seed, targets] =>
+    match n.toNat?, parseFloatList? seed, parseFloatList? targets with
+    | some n, some s, some t => "ok " ++ showFloatList (seedCorrcoef s (rows n t))
+    | _, _, _ => "bad-op"
+  | ["xcorr", which, n, data] =>
+    match n.toNat?, parseFloatList? data with
+    | some n, some d =>
+      let rs := rows n d
+      if which = "norm" then
+        let f := fun v z => showCube (xcorrNormFill v z rs)
+        s!"ok {f .intended .intended} ; {f .current .current} ; {f .current .intended} ; {f .intended .current}"
+      else s!"ok {showCube (xcorrFill .intended rs)} ; {showCube (xcorrFill .current rs)}"
+    | _, _ => "bad-op"
+  | ["corrspec", nm, x1, x2] =>
+    match parseFloatList? x1, parseFloatList? x2 with
+    | some a, some b =>
+      let n := a.length.toFloat
+      let c := fun (k : Nat) => Float.cos (2.0 * pi * k.toFloat / n)
+      let s := fun (k : Nat) => Float.sin (2.0 * pi * k.toFloat / n)
+      "ok " ++ showFloatList (correlationSpectrum c s a b (b? nm))
+    | _, _ => "bad-op"
+  | ["entropy", x] => match parseIntList? x with
+    | some x => "ok " ++ showFloat (entropy1 x)
+    | _ => "bad-op"
+  | ["entropy", x, y] => match parseIntList? x, parseIntList? y with
+    | some x, some y => "ok " ++ showFloat (entropy2 x y)
+    | _, _ => "bad-op"
+  | ["entropy", x, y, z] => match parseIntList? x, parseIntList? y, parseIntList? z with
+    | some x, some y, some z => "ok " ++ showFloat (entropy3 x y z)
+    | _, _, _ => "bad-op"
+  | ["counts", x, y] => match parseIntList? x, parseIntList? y with
+    | some x, some y => "ok " ++ showNatList (jointCounts (pairs (uniq x) (uniq y)) (x.zip y))
+    | _, _ => "bad-op"
+  | ["condent", x, y] => match parseIntList? x, parseIntList? y with
+    | some x, some y => "ok " ++ showFloat (conditionalEntropy x y)
+    | _, _ => "bad-op"
+  | ["mi", x, y] => match parseIntList? x, parseIntList? y with
+    | some x, some y => "ok " ++ showFloat (mutualInformation x y)
+    | _, _ => "bad-op"
+  | ["ecc", x, y] => match parseIntList? x, parseIntList? y with
+    | some x, some y => "ok " ++ showFloat (entropyCC x y)
+    | _, _ => "bad-op"
+  | ["te", lag, x, y] => match lag.toNat?, parseIntList? x, parseIntList? y with
+    | some lag, some x, some y => "ok " ++ showFloat (transferEntropy x y lag)
+    | _, _, _ => "bad-op"
+  | _ => "bad-op"
 
 end Nitime.C20
